@@ -367,6 +367,7 @@ ANCHOR_GRADERS = {
     'Fw': {'$g': 'FormulaGrader', 'kw': {'answers': 'sin(zqx)', 'variables': ['zqx'], 'blacklist': ['cos'],
                                         'forbidden_strings': ['+0'], 'required_functions': ['sin']}},
     'N': {'$g': 'NumericalGrader', 'kw': {'answers': '3'}},
+    'Fk': {'$g': 'FormulaGrader', 'kw': {'answers': 'zqx+1', 'variables': ['zqx'], 'metric_suffixes': True}},
     'M': {'$g': 'MatrixGrader', 'kw': {'answers': '[1,2]', 'variables': ['zqx'], 'max_array_dim': 2}},
     'SL': {'$g': 'SingleListGrader', 'kw': {'answers': ['zqa', 'zqb'], 'subgrader': {'$g': 'StringGrader', 'kw': {}}}},
     'SLl': {'$g': 'SingleListGrader', 'kw': {'answers': ['zqa', 'zqb'], 'length_error': True,
@@ -417,6 +418,19 @@ ANCHORS = [
     ('M', '[1,2]/0', 'CalcZeroDivisionError'), ('M', '(1e300+1e-300*i)*[1e300,1e-300]', 'CalcOverflowError'),
     ('M', '[1e300,1]*1e300', 'CalcOverflowError'),
 ]
+
+# number literals whose exponent is far beyond the float range (up to exponents no number library accepts), bare and
+# with a % / metric suffix, alone and inside a sum: the anticipated overflow problem (a seeded change rescaled suffixed
+# literals with the decimal module, whose own Overflow / InvalidOperation errors fell through to the generic error)
+for _exp in ['309', '400', '99999', '999999', '1000002', '1234567', '99999999', '9999999999999999999',
+             '99999999999999999999999999']:
+    for _mant in ['1', '3', '2.5', '0.001']:
+        if (len(_exp) + len(_mant)) % 2 or (_mant == '0.001' and _exp == '309'):      # 0.001e309 = 1e306 is a finite number
+            continue
+        for _sfx, _gk in [('', 'F'), ('%', 'F'), ('%', 'N'), ('k', 'Fk'), ('m', 'Fk'), ('T', 'Fk'), ('p', 'Fk'), ('%', 'Fk')]:
+            ANCHORS.append((_gk, '%se%s%s' % (_mant, _exp, _sfx), 'CalcOverflowError'))
+            if _mant == '1':
+                ANCHORS.append((_gk, '1+%se+%s%s' % (_mant, _exp, _sfx), 'CalcOverflowError'))
 
 
 FAMILY_KINDS = ['Formula', 'Numerical', 'Matrix']
